@@ -1,52 +1,123 @@
 (* C17 — typed arrays / DataViews never touch memory outside their buffer; bytes match the spec.
-   ONLY theorem statements; each is closed by [exact] of a lemma of C17/Proofs*.v. *)
+   ONLY theorem statements; each is closed by [exact] of a lemma of C17/Proofs*.v.
+   Model (C17/Model.v): buffers are byte lists with a detached flag (a detached buffer keeps its bytes:
+   they are the Go owner's memory); views (buffer, byteOffset, length, kind); every operation returns
+   the new state, the result and the byte ranges it touched with the liveness of the buffer at that
+   moment.  Two readings: MS = ECMA-262, MI = goja's arithmetic. *)
 From Coq Require Import ZArith List Bool NArith SpecFloat.
 From Verif.Base Require Import F64.
-From Verif.C17 Require Import Model Proofs.
+From Verif.C17 Require Import Model Proofs ProofsTouch ProofsCodec ProofsEq ProofsInv.
 Import ListNotations.
 Local Open Scope Z_scope.
 
-(* Refuted regions of goja's arithmetic (open findings), by explicit witnesses. *)
+(* ------------------------------------------------------------------------------------------------
+   1. touched_in_view.  The view invariant: byteOffset, length >= 0, byteOffset aligned to the
+   element size, byteOffset + length*size <= the memory of the buffer (same for DataViews). *)
 
-(* F11: Uint8Array(buf,0,8).copyWithin(6,0,8) on a 16-byte buffer: I writes the range [6,14) — bytes
-   8..13 lie outside the view and change — while S touches only the view. *)
-Theorem copyWithin_touched_refuted :
-  let '(st', _, t) := step MI st_f11 op_f11 in
-  forallb (touch_ok (allowed st_f11 op_f11)) t = false /\
-  In (mkT 0 6 8 true) t /\
-  (forall i, (8 <= i < 14)%nat -> nth_error (b_bytes (nth 0 (bufs st') (mkBuf [] true))) i <> nth_error b16 i) /\
-  forallb (touch_ok (allowed st_f11 op_f11)) (snd (step MS st_f11 op_f11)) = true.
-Proof. exact Proofs.copyWithin_touched_refuted. Qed.
+(* For BOTH readings, every state satisfying the invariant, every one of the 18 operations and every
+   argument combination (incl. arguments whose valueOf detaches any buffer): each touched range is
+   empty, or lies on a buffer that is NOT detached at the moment of the access and inside a region the
+   operation is entitled to — the view(s)/DataView it was called on, the receiver buffer of
+   ArrayBuffer.prototype.slice, or the buffer the operation itself creates. *)
+Theorem touched_in_view : forall m st o,
+  ViewInv st -> Forall (fun t => touch_ok (allowed st o) t = true) (snd (step m st o)).
+Proof. exact ProofsTouch.touched_in_view. Qed.
 
-(* set(array) with an element whose valueOf detaches the buffer: I stores into the detached memory. *)
-Theorem set_arraylike_touched_refuted :
-  let '(st', _, t) := step MI st_n1 op_n1 in
-  In (mkT 0 1 1 false) t /\ forallb (touch_ok (allowed st_n1 op_n1)) t = false /\
-  nth_error (b_bytes (nth 0 (bufs st') (mkBuf [] true))) 1 = Some 77%N /\
-  let '(st2, _, t2) := step MS st_n1 op_n1 in
-  forallb (touch_ok (allowed st_n1 op_n1)) t2 = true /\
-  nth_error (b_bytes (nth 0 (bufs st2) (mkBuf [] true))) 1 = Some 17%N.
-Proof. exact Proofs.set_arraylike_touched_refuted. Qed.
+(* ... and those regions lie inside the current memory of their buffer *)
+Theorem allowed_in_buffer : forall st o b lo hi,
+  ViewInv st -> In (b, lo, hi) (allowed st o) -> (b < length (bufs st))%nat -> 0 <= lo /\ hi <= mlen st b.
+Proof. exact ProofsTouch.allowed_in_buffer. Qed.
 
-Theorem int_conv_refuted :
-  raw_bits MI Int16 (PNum (of_Z (2 ^ 63 + 2048))) = Some 0 /\
-  raw_bits MS Int16 (PNum (of_Z (2 ^ 63 + 2048))) = Some 2048.
-Proof. exact Proofs.int_conv_refuted. Qed.
+(* The invariant holds in every state without views and is preserved by every operation of both
+   readings (constructors validate offset/length; subarray/slice derive in-range views; nothing
+   shrinks a buffer), hence along every history. *)
+Theorem inv_init : forall st, no_views st -> ViewInv st.
+Proof. exact ProofsInv.inv_init. Qed.
+Theorem inv_step : forall m st o, ViewInv st -> ViewInv (fst (fst (step m st o))).
+Proof. exact ProofsInv.inv_step. Qed.
+Theorem touched_in_view_history : forall m st ops o,
+  no_views st ->
+  Forall (fun t => touch_ok (allowed (run m st ops) o) t = true) (snd (step m (run m st ops) o)).
+Proof. exact ProofsInv.touched_in_view_history. Qed.
 
-Theorem bigint64_fill_refuted :
-  let st := mkSt [mkBuf b16 false] [mkView 0 0 2 BigInt64] [] in
-  let o := OFill 0 (mkV true (-1) None) None None in
-  b_bytes (nth 0 (bufs (fst (fst (step MI st o)))) (mkBuf [] true)) <>
-  b_bytes (nth 0 (bufs (fst (fst (step MS st o)))) (mkBuf [] true)).
-Proof. exact Proofs.bigint64_fill_refuted. Qed.
+(* non-vacuity: a reachable state with a view at a non-zero offset, and an operation that touches *)
+Definition ex_ops : list op :=
+  [OCtor Int16 0 (Some (num 2 None)) (Some (num 6 None)); OSubarray 0 (Some (num (-4) None)) (Some (num 100 None));
+   ODetach 1].
+Definition ex_st0 : state := mkSt [mkBuf b16 false; mkBuf b16 false] [] [].
+Example touched_nonvacuous :
+  snd (step MI (run MI ex_st0 ex_ops) (OCopyWithin 1 (num 1 None) (num 0 None) None))
+  = [mkT 0 6 6 true; mkT 0 8 6 true] /\
+  views (run MI ex_st0 ex_ops) = [mkView 0 2 6 Int16; mkView 0 6 4 Int16].
+Proof. vm_compute. split; reflexivity. Qed.
+
+(* ------------------------------------------------------------------------------------------------
+   2. bytes_eq_spec: goja's arithmetic = the specification, on the new state (all bytes), the result
+   and the touched ranges, for every state satisfying the invariant and every operation inside the
+   explicit guard.  The guard excludes exactly: (a) V[k] = v with a non-index numeric key and a value
+   of the wrong type (open finding C17-N9); (b) fill with a value of the wrong type (open finding
+   C17-N8, coercion order); (c) set(typedArray) between DIFFERENT element kinds on the SAME buffer
+   (goja copies in place in an address-dependent order, the spec from a clone; proved equal for
+   distinct buffers, covered by the correspondence runs for overlapping ones). *)
+Theorem bytes_eq_spec : forall st o,
+  ViewInv st -> eq_guard st o = true -> step MI st o = step MS st o.
+Proof. exact ProofsEq.bytes_eq_spec. Qed.
+
+Example guard_excludes_open_findings :
+  eq_guard st_n8 op_n8 = false /\ eq_guard st_n8 (OSet 0 KNonInt (vnum 1 None)) = false /\
+  eq_guard st_n8 (OSet 0 (KIdx 1) (vnum 1 None)) = true /\ eq_guard st_n8 (OFill 0 (mkV true (-1) None) None None) = true.
+Proof. exact ProofsEq.guard_excludes_open_findings. Qed.
+
+(* goja's integer element conversions (floatToInt64Mod32 + narrowing) are the modular ones, for every
+   float incl. |x| >= 2^63 (F10 repaired) *)
+Theorem int_conv_eq : forall k p, raw_bits MI k p = raw_bits MS k p.
+Proof. exact ProofsEq.raw_bits_eq. Qed.
+
+(* the two open divergences, by witnesses *)
+Theorem fill_order_refuted :
+  snd (fst (step MS st_n8 op_n8)) = RErr TypeError /\ snd (fst (step MI st_n8 op_n8)) = RErr TypeError /\
+  is_det (fst (fst (step MS st_n8 op_n8))) 0%nat = false /\ is_det (fst (fst (step MI st_n8 op_n8))) 0%nat = true.
+Proof. exact Proofs.fill_order_refuted. Qed.
+Theorem nonindex_key_refuted :
+  snd (fst (step MS st_n8 (OSet 0 KNonInt (vnum 1 None)))) = RErr TypeError /\
+  snd (fst (step MI st_n8 (OSet 0 KNonInt (vnum 1 None)))) = RUndef.
+Proof. exact Proofs.nonindex_key_refuted. Qed.
+
+(* ------------------------------------------------------------------------------------------------
+   3. raw_roundtrip: RawBytesToNumeric (NumericToRawBytes k v) = ToType k v for all 11 kinds, both
+   byte orders, both readings, every BigInt and every well-formed binary64 (None = None is the
+   TypeError of a value of the wrong type). *)
+Theorem raw_roundtrip : forall m k le p,
+  pv_wf p -> option_map (raw_to_num k le) (num_to_raw m k le p) = to_type m k p.
+Proof. exact ProofsCodec.raw_roundtrip. Qed.
+
+(* every Number a script can supply is a 64-bit pattern: no side condition *)
+Theorem raw_roundtrip_bits : forall m k le z,
+  option_map (raw_to_num k le) (num_to_raw m k le (PNum (of_bits z))) = to_type m k (PNum (of_bits z)).
+Proof. exact ProofsCodec.raw_roundtrip_bits. Qed.
+
+(* the bit-pattern codec of Base/F64 on SpecFloat is inverted on every well-formed float *)
+Theorem bits64_roundtrip : forall x, wfb 53 1024 x = true -> of_bits (to_bits x mod 2 ^ 64) = x.
+Proof. exact ProofsCodec.bits64_roundtrip. Qed.
+Theorem bits32_roundtrip : forall x, wfb 24 128 x = true -> of_bits32 (to_bits32 x mod 2 ^ 32) = x.
+Proof. exact ProofsCodec.bits32_roundtrip. Qed.
+Theorem of_bits_wf : forall b, wfb 53 1024 (of_bits b) = true.
+Proof. exact ProofsCodec.of_bits_wf. Qed.
 
 (* The byte codec: n little-endian bytes of z decode to z mod 2^(8n), for every z and n. *)
 Theorem le_codec : forall n z, le_val (le_bytes n z) = z mod 2 ^ (8 * Z.of_nat n).
 Proof. exact Proofs.le_val_le_bytes. Qed.
 
-(* clamp_spec: ToUint8Clamp is within 0..255 for every float; for a positive non-integer dyadic m*2^e
-   below 255 the result is a nearest integer (|r - x| <= 1/2, scaled by d = 2^-e) and even on a tie;
-   integers are clamped; negatives give 0. *)
+Example roundtrip_examples :
+  map (fun k => option_map (raw_to_num k false) (num_to_raw MI k false (PNum (of_Z (2 ^ 63 + 2048)))))
+      [Int16; Uint8C; Float32]
+  = [Some (EInt 2048); Some (EInt 255); Some (EFlt (of_Z (2 ^ 63)))].
+Proof. vm_compute. reflexivity. Qed.
+
+(* ------------------------------------------------------------------------------------------------
+   4. clamp_spec: ToUint8Clamp is within 0..255 for every float; for a positive non-integer dyadic
+   m*2^e below 255 the result is a nearest integer (|r - x| <= 1/2, scaled by d = 2^-e) and even on
+   a tie. *)
 Theorem clamp_range : forall f, 0 <= clamp8 f <= 255.
 Proof. exact Proofs.clamp8_range. Qed.
 
@@ -64,15 +135,20 @@ Example clamp_examples :
   = [0; 2; 2; 255; 0].     (* 0.5 1.5 2.5 255.5 -0.5 *)
 Proof. vm_compute. reflexivity. Qed.
 
-Print Assumptions copyWithin_touched_refuted.
-Print Assumptions set_arraylike_touched_refuted.
-Print Assumptions int_conv_refuted.
-Print Assumptions bigint64_fill_refuted.
+Print Assumptions touched_in_view.
+Print Assumptions allowed_in_buffer.
+Print Assumptions inv_init.
+Print Assumptions inv_step.
+Print Assumptions touched_in_view_history.
+Print Assumptions bytes_eq_spec.
+Print Assumptions int_conv_eq.
+Print Assumptions fill_order_refuted.
+Print Assumptions nonindex_key_refuted.
+Print Assumptions raw_roundtrip.
+Print Assumptions raw_roundtrip_bits.
+Print Assumptions bits64_roundtrip.
+Print Assumptions bits32_roundtrip.
+Print Assumptions of_bits_wf.
 Print Assumptions le_codec.
 Print Assumptions clamp_range.
 Print Assumptions clamp_spec.
-
-(* a value of the wrong type (BigInt for a Number kind or the reverse) is rejected consistently *)
-Theorem raw_none_iff : forall m k le p, num_to_raw m k le p = None <-> to_type m k p = None.
-Proof. exact Proofs.raw_none_iff. Qed.
-Print Assumptions raw_none_iff.
